@@ -64,9 +64,15 @@ def run(ck: Check):
             ck.count(("accuracy", label), True)
             ex = exact(t, scale)
             errs = []
-            for f in (1.0, 1e-3):
-                sol = AdaptiveRK(order=order, rtol=rtol * f, atol=atol * f).integrate(system, y0.copy(), t)
-                errs.append(float(np.max(np.abs(np.asarray(sol.states) - ex))))
+            try:
+                for f in (1.0, 1e-3):
+                    sol = AdaptiveRK(order=order, rtol=rtol * f, atol=atol * f).integrate(system, y0.copy(), t)
+                    errs.append(float(np.max(np.abs(np.asarray(sol.states) - ex))))
+            except Exception as exn:  # noqa -- smooth problem, default step limits: the integrator must return
+                ck.violation(f"AdaptiveRK|{pname}|order={order}|raises:{type(exn).__name__}",
+                             f"{label}: {type(exn).__name__}: {str(exn)[:160]}", {"case": label})
+                cs.traces.remove(tr)
+                continue
             tol_eff = atol + rtol * float(np.max(np.abs(ex)))
             cs.obs(tr, "error_over_tolerance", errs[0] / tol_eff)
             # the tightened run may hit the rounding floor of the amplitude: compare with the larger of the two
